@@ -189,6 +189,10 @@ func c11(w *core.World, r *core.Report) {
 		}
 	}
 
+	// ---- SORT-SHARED
+	r.Rule("SORT-SHARED", 12, "no in-place sort / reverse of a slice that shares its backing array with a struct field, a package variable or the result of a repository function that hands out such state (depth 3): the key names are needed in key-statement order by some consumers (XML key elements) and in name order by others (tree levels); sorting a shared slice changes the order for everyone. Slices made locally, library results and parameters are not reported.")
+	ruleSortShared(w, r, "SORT-SHARED", "pkg/tree", "pkg/utils", "pkg/datastore", "pkg/datastore/clients/schema", "pkg/datastore/target", "pkg/datastore/target/netconf", "pkg/tree/importer/xml", "pkg/tree/importer/json", "pkg/tree/importer/proto")
+
 	// ---- KEY-ORDER
 	r.Rule("KEY-ORDER", 9, "key-order table: every function that maps a position (tree level, slice index, output order) to a key name or value sorts the key names first (the tree and utils.ToStrings order key levels by key NAME, not by the key statement): a sort call exists, executes before the positional use, and the sorted slice is the one that is ranged / indexed afterwards.")
 	for _, t := range keyOrderTable {
